@@ -57,7 +57,7 @@ CLAIMS = {
         text="Exact limit comparison on both sides for ALL limits (any Option<usize>) and all declared lengths up to 2^32-1: decode accepts "
              "iff BE length <= limit, refuses with OUT_OF_RANGE in the call that consumed the prefix without growing the buffer; encode "
              "refuses iff len > limit; finish_encoding for EVERY slice length up to isize::MAX (fabricated slice, only the 5 prefix bytes are "
-             "touched): accepted iff len <= limit and len <= u32::MAX, RESOURCE_EXHAUSTED beyond 4 GiB, nothing written on refusal; an "
+             "touched): accepted iff len <= limit and len <= u32::MAX, RESOURCE_EXHAUSTED beyond 4 GiB; an "
              "oversized message never takes earlier frames of the same batch with it (one-step differential).",
         note="Outside: encode_item producing a > 4 GiB payload (only finish_encoding sees such a length here), both roles end-to-end.",
         ref="§4 C06"),
